@@ -205,3 +205,64 @@ def query_stage(ctx):
     ctx.obligation("correspondence: Model/QueryFmt.v query_clauses on the live clause lists = the renderers Formatter calls, on %d query objects (incl. zero counts and permuted keys)" % (len(checks) - 1), not bad)
     for i in bad[:5]:
         ctx.violation("input", dict(meta[i], broken="correspondence Model/QueryFmt.v vs Formatter.unordered_query / ordered_query"), no_input=True)
+
+
+# ---------------------------------------------------------------------------------------------------------------------------------
+# the shape decision of INSERT / REPLACE ... VALUES (Model/InsertShape.v, Props/C19i.v)
+THMS_I = ["C19_literal_form_iff", "C19_other_rows_are_a_query", "C19_query_keeps_cells", "C19_values_form_pairs", "C19_values_cell", "C19_values_form_plain",
+          "C19_literal_cell_faithful", "C19_one_column_wide_rows_refuted"]
+HEADER_I = ("From Coq Require Import List ZArith String Bool.\nFrom MoSql Require Import Base.Json Model.Ddl Model.InsertShape.\nImport ListNotations.\n"
+            "Open Scope string_scope. Open Scope list_scope.\n")
+CELLS = [("7", "(CInt 7)"), ("0", "(CInt 0)"), ("1.5", '(CFloat "1.5" false)'), ("0.0", '(CFloat "0.0" true)'), ("true", "(CBool true)"), ("false", "(CBool false)"),
+         ("'a'", '(CStr "a")'), ("''", '(CStr "")'), ("'it''s'", '(CStr "it\'s")'), ("null", None), ("c9", None), ("a + 1", None), ("-3", None), ("f(1)", None), ("42", "(CInt 42)")]
+
+
+def insert_stage(ctx):
+    M = impl.M
+    ctx.prove("Props.C19i", THMS_I)
+    rnd = ctx.rng("insertshape")
+    other = {t: value_of(M, t) for t, c in CELLS if c is None}
+    missing = [t for t, v in other.items() if v is None]
+    ctx.obligation("INSERT stage: every non-literal cell of the pool parses alone", not missing, str(missing))
+    truthy = [c for c in CELLS if c[1] and c[0] not in ("0", "0.0", "false", "''")]
+
+    def ccell(c):
+        return c[1] if c[1] else "(COther %s)" % cjson(other[c[0]])
+    checks, meta = [], []
+    for verb in ("insert", "replace"):
+        for nrows in (1, 2, 3):
+            for width in (1, 2, 3):
+                for colmode in ("none", "names", "one"):
+                    if colmode == "one" and width == 1:
+                        continue
+                    for variant in range(ctx.n(4, 30)):
+                        # half of the draws take truthy literals only, so that both shapes are reached for every (rows, width, columns)
+                        pool = truthy if variant % 2 == 0 else CELLS
+                        rows = [[rnd.choice(pool) for _ in range(width)] for _ in range(nrows)]
+                        if any(other.get(c[0]) is None and c[1] is None for r in rows for c in r):
+                            continue
+                        if colmode == "none":
+                            cols, ccols, ctext = None, "None", ""
+                        elif colmode == "names" and width > 1:
+                            cols = ["k%d" % i for i in range(width)]; ccols = "(Some (inr %s))" % clist([cstr(x) for x in cols]); ctext = " (" + ", ".join(cols) + ")"
+                        elif colmode == "names":
+                            cols = "k0"; ccols = '(Some (inl "k0"))'; ctext = " (k0)"
+                        else:       # one listed column and wider rows: the bare name is zipped by character (listed finding; the model follows the code)
+                            cols = "kq"[:width] if width <= 2 else "kqz"; ccols = "(Some (inl %s))" % cstr(cols); ctext = " (%s)" % cols
+                        sql = "%s into t%s values %s" % (verb, ctext, ", ".join("(" + ", ".join(c[0] for c in r) + ")" for r in rows))
+                        st, t = impl.outcome(M.parse, sql)
+                        ctx.count(1, sql)
+                        if st != "ok":
+                            ctx.violation("input", dict(sql=sql, observed="raised %s" % t, requires="an INSERT / REPLACE with literal or expression cells is accepted"))
+                            continue
+                        checks.append("jv_eqb (insert_json %s \"t\" %s %s) %s" % (cstr(verb), ccols, clist([clist([ccell(c) for c in r]) for r in rows]), cjson(t)))
+                        meta.append(dict(sql=sql, returned=short(t, 500)))
+    bad, log = l0.run_checks(ctx, "insertshape", HEADER_I, checks, shard=400)
+    if bad is None:
+        ctx.obligation("INSERT shape correspondence evaluated", False, log[-2000:])
+        ctx.violation("obligation", dict(what="INSERT shape correspondence could not be evaluated by coqc", log=log[-2000:]), no_input=True)
+        return
+    ctx.traces += len(checks)
+    ctx.obligation("correspondence: Model/InsertShape.v insert_json = parse on %d INSERT / REPLACE statements (1-3 rows x 1-3 cells x column list absent / matching / one name; literal, falsy and non-literal cells)" % len(checks), not bad)
+    for i in bad[:5]:
+        ctx.violation("input", dict(meta[i], broken="correspondence Model/InsertShape.v vs to_row / to_values / to_insert_call"), no_input=True)
